@@ -492,7 +492,7 @@ def r10_15(run, model):
                     chain.append(r["method"] + "(" + ",".join(S.norm_ws(run.facts.text(rel, a["sp"])) for a in r["args"]) + ")")
                     r = r["recv"]
                 sites.append((rel, f, c, tuple(reversed(chain)), kind))
-    if len(sites) < 8:
+    if len(sites) < 3:
         raise AnalysisIncomplete(f"only {len(sites)} literal parse sites found")
     from collections import Counter
     common = Counter(s_[3] for s_ in sites).most_common(1)[0][0]
@@ -609,8 +609,41 @@ def r10_16(run, model):
     c03.r03_14(run, model, only=("infer_while_expr",))
 
 
+def r10_20(run, model):
+    run.rule("R10.20", "a float literal is rounded once, to its own type: where the TAST builder turns the text of a float32 literal into its "
+                       "payload, the text is parsed at f32 (resolved `str::parse::<f32>`) - parsed at f64 and narrowed afterwards it is rounded "
+                       "twice, and a decimal just beside a float32 rounding midpoint comes out one ulp off (float64 literals: parsed at f64)")
+    from lib.mir import Mir
+    mir = Mir(run.facts)
+    f = model.fn("build_expr", TB_RS)
+    helpers = {g.name: g for g in model.scope_fns(f) if g is not f and g.body is not None}
+    n = 0
+    for m in S.find(f.body, "Match"):
+        for arm in m["arms"]:
+            for alt in S.pat_alts(arm["pat"]):
+                h = S.pat_head(S.strip_refs(alt))
+                if h[0] != "variant" or h[1][-1] not in ("EFloat32", "EFloat64"):
+                    continue
+                want = "f32" if h[1][-1] == "EFloat32" else "f64"
+                spans = [arm["body"]["sp"]] + [helpers[S.callee_name(c)].body["sp"] for c in S.walk(arm["body"]) if c["k"] == "Call" and S.callee_name(c) in helpers]
+                seen = set()
+                for sp in spans:
+                    for c in mir.in_span(TB_RS, sp):
+                        if c["callee"].endswith("::parse") and "str" in c["callee"] and re.fullmatch(r"\[f(32|64)\]", c.get("substs") or ""):
+                            seen.add(c["substs"].strip("[]"))
+                n += 1
+                ok = seen == {want}
+                run.ob("R10.20", f"build_expr|{h[1][-1]} text parsed at {want}", ok, site(TB_RS, arm["sp"]),
+                       f"the literal text is parsed at {sorted(seen) or 'no float type'} on its way into the payload",
+                       witness="16777217.000000001f32 denotes 16777218 (round to nearest float32); parsed at f64 it becomes 16777217 exactly, and "
+                               "`as f32` rounds that tie to even: 16777216")
+        break
+    run.floor("float literal arms of build_expr with a text payload", n, 2)
+
+
 def run(run, model):
     run.try_rule(r10_12, model)
+    run.try_rule(r10_20, model)
     run.try_rule(r10_13, model)
     run.try_rule(r10_14, model)
     run.try_rule(r10_6, model)
